@@ -164,6 +164,18 @@ CATALOGUE = [
     ('C16', 'no-initial-notification', 'bacpypes/service/cov.py', "        if not cancel_subscription:\n            if _debug: ChangeOfValueServices._debug(\"    - send a notification\")\n            deferred(cov_detection.send_cov_notifications, cov)", "        if False:\n            pass", 2),
     ('C16', 'status-flags-not-tracked', 'bacpypes/service/cov.py', "class GenericCriteria(COVDetection):\n\n    properties_tracked = (\n        'presentValue',\n        'statusFlags',\n        )", "class GenericCriteria(COVDetection):\n\n    properties_tracked = (\n        'presentValue',\n        )"),
     ('C16', 'active-list-skips-indefinite', 'bacpypes/service/cov.py', "        for cov in obj._app.subscriptions():\n            # calculate time remaining\n            if not cov.lifetime:\n                time_remaining = 0", "        for cov in obj._app.subscriptions():\n            # calculate time remaining\n            if not cov.lifetime:\n                continue"),
+    # ---- C20
+    ('C20', 'exception-tval-strictly-less', 'bacpypes/local/schedule.py', "                    tval = time_value.time\n                    if tval <= etime:\n                        if isinstance(time_value.value, Null):", "                    tval = time_value.time\n                    if tval < etime:\n                        if isinstance(time_value.value, Null):"),
+    ('C20', 'weekly-tval-strictly-less', 'bacpypes/local/schedule.py', "                tval = time_value.time\n                if tval <= etime:\n                    if isinstance(time_value.value, Null):", "                tval = time_value.time\n                if tval < etime:\n                    if isinstance(time_value.value, Null):"),
+    ('C20', 'weekly-index-off-by-one', 'bacpypes/local/schedule.py', "            daily_schedule = sched_obj.weeklySchedule[edate[3]]", "            daily_schedule = sched_obj.weeklySchedule[edate[3] % 7 + 1]"),
+    ('C20', 'exception-priority-reversed', 'bacpypes/local/schedule.py', "        for priority_value, next_transition in zip(event_priority, next_transition_time):", "        for priority_value, next_transition in reversed(list(zip(event_priority, next_transition_time))):"),
+    ('C20', 'last-day-is-30', 'bacpypes/local/schedule.py', "        # last day of the month\n        last_day = calendar.monthrange(year + 1900, month)[1]\n        if day != last_day:", "        # last day of the month\n        last_day = 30\n        if day != last_day:"),
+    ('C20', 'odd-even-month-swapped', 'bacpypes/local/schedule.py', "        # odd months\n        if (month % 2) == 0:\n            return False\n    elif month_p == 14:\n        # even months\n        if (month % 2) == 1:\n            return False",
+     "        # odd months\n        if (month % 2) == 1:\n            return False\n    elif month_p == 14:\n        # even months\n        if (month % 2) == 0:\n            return False", 2),
+    ('C20', 'weekly-transition-ignored-when-exception-active', 'bacpypes/local/schedule.py', "                else:\n                    earliest_transition = min(earliest_transition, tval)\n                    break\n\n        # return what was matched, if anything", "                else:\n                    break\n\n        # return what was matched, if anything"),
+    ('C20', 'week-of-month-5-off', 'bacpypes/local/schedule.py', "        if (day < 29) or (day > 31):", "        if (day < 28) or (day > 31):"),
+    ('C20', 'midnight-not-rearmed', 'bacpypes/local/schedule.py', "            # not in the effective period, look again when the day is over\n            if _debug: LocalScheduleInterpreter._debug(\"    - not in effective period\")\n            next_transition = (24, 0, 0, 0)", "            return"),
+    ('C20', 'null-weekly-entry-keeps-previous', 'bacpypes/local/schedule.py', "                    if isinstance(time_value.value, Null):\n                        if _debug: LocalScheduleInterpreter._debug(\"    - back to normal @ %r\", tval)\n                        daily_value = sched_obj.scheduleDefault", "                    if isinstance(time_value.value, Null):\n                        pass"),
     # ---- C12
     ('C12', 'window-max-instead-of-min', 'bacpypes/appservice.py', "        self.actualWindowSize = min(apdu.apduWin, self.ssmSAP.proposedWindowSize)\n        if _debug: ServerSSM._debug(",
      "        self.actualWindowSize = max(apdu.apduWin, self.ssmSAP.proposedWindowSize)\n        if _debug: ServerSSM._debug("),
